@@ -319,6 +319,11 @@ def c20_bridges(tier, seed):
         wantb = {j for j, v in enumerate(vs) if v.bounds.as_tuple() == (0, 1)}
         if bi != wantb or ii != set(range(k)) - wantb:
             _viol(r, "c20.index-partition", {"bounds": [list(v.bounds.as_tuple()) for v in vs]}, boolean=sorted(bi), integer=sorted(ii))
+        for spell_b, spell_i in ((puan.Dtype.BOOL, puan.Dtype.INT), ("bool", "int")):
+            sb, si = set(map(int, arr.variable_indices(spell_b))), set(map(int, arr.variable_indices(spell_i)))
+            if sb != wantb or si != set(range(k)) - wantb:
+                _viol(r, "c20.index-partition", {"bounds": [list(v.bounds.as_tuple()) for v in vs], "argument": [repr(spell_b), repr(spell_i)]},
+                      boolean=sorted(sb), integer=sorted(si))
         # list / context conversions
         ctx = [str(i) for i in ids]
         lst = rng.sample(ctx, rng.randint(0, k))
